@@ -1212,14 +1212,35 @@ def a2_a3(prog: Program, chk: Check) -> None:
                     free -= bound_inside
                     pub = _public_attrs(prog, [ci])
                     cap = sorted(p for p in free if p in pub)
+                    # ... or a constructor local computed from such a parameter
+                    # (`f = TABLE[kind]`, captured instead of looked up through self.kind)
+                    if init is not None:
+                        loc_free = {x.id for x in ast.walk(cl) if isinstance(x, ast.Name)
+                                    and isinstance(x.ctx, ast.Load)} - bound_inside - params - {"self"}
+                        for st in walk_local(init.node):
+                            if isinstance(st, ast.Assign) and len(st.targets) == 1 \
+                                    and isinstance(st.targets[0], ast.Name) \
+                                    and st.targets[0].id in loc_free:
+                                srcs = {y.id for y in ast.walk(st.value) if isinstance(y, ast.Name)
+                                        and y.id in params and y.id in pub}
+                                # tmp_x = float(x) style input checks store the same value the
+                                # attribute gets: the twin is then self.x = tmp_x, also public
+                                if srcs and not any(
+                                        isinstance(s2, ast.Assign) and isinstance(s2.value, ast.Name)
+                                        and s2.value.id == st.targets[0].id
+                                        and any((dotted(t) or "").startswith("self.") for t in s2.targets)
+                                        for s2 in walk_local(init.node)):
+                                    cap += [f"{st.targets[0].id} (from {sorted(srcs)[0]})"]
+                        cap = sorted(set(cap))
                     n3 += 1
                     chk.add("A3", init, f"closure self.{attr} captures constructor locals {cap}"
                             if cap else f"closure self.{attr} captures no public-twin local",
                             not cap,
                             "" if not cap else
                             f"the closure uses the constructor argument {cap} although the same "
-                            f"value is public as self.{cap[0]}: assigning self.{cap[0]} later "
-                            f"changes __str__ and other readers but not the closure", cl,
+                            f"value is public as self.{cap[0].split(' (from ')[-1].rstrip(')')}: "
+                            f"assigning that attribute later changes __str__ and other readers "
+                            f"but not the closure", cl,
                             function=f"{ci.name}.__init__")
     if n3 < 1:
         raise AnalysisError("A3: no closure examined")
